@@ -60,6 +60,7 @@ package file
 //@   setat "if shouldCheckMax && !w.cutOffEventByLimit && len(accumBuf)+len(line) > w.maxEventSize {" wasSkip := skipLine
 //@   assert at "job.shouldSkip.Store(false)" wasSkip || (shouldCheckMax && !w.cutOffEventByLimit && lastOffset + scanned - ls > w.maxEventSize)
 //@   setat "accumBuf = accumBuf[:0]" ls := lastOffset + scanned
+//@   assert at "accumBuf = accumBuf[:0]" lastOffset + scanned >= 1 && content[lastOffset + scanned - 1] == '\n'
 //@   callee chanrecv:jobsChan() (j)
 //@     ghostout content, fpos, ls, gacc
 //@     ensures j != nil ==> j.lastEventSeq == gacc
